@@ -649,10 +649,17 @@ func runProperty(c *Ctx, pd *propDef, known knownFile, reviewed map[string]revie
 		if _, b := r.blocked[rule]; b && anyViol {
 			continue
 		}
-		if n < min {
+		// A rule that matches nothing would pass vacuously: that fails the check.  Rules that
+		// enumerate a table (schema types, struct tags, dictionary entries: minimum >= 20) must
+		// also keep the reviewed count; for the others the number of constructs depends on how
+		// the code is cut (merged loops, shared helpers), so a smaller non-zero count is
+		// recorded in the evidence but is not a failure.
+		if n == 0 && min > 0 || (min >= 20 && n < min) {
 			r.viol(rule, "vacuity", "", fmt.Sprintf("rule matched %d constructs, the reviewed minimum is %d: the code the rule is anchored in has changed shape and the rule would pass vacuously", n, min))
 			perRule[rule][stViol]++
 			perRule[rule]["total"]++
+		} else if n < min {
+			r.info(rule, "instances", "", fmt.Sprintf("rule matched %d constructs, %d on the reviewed tree (the code is cut differently; every construct found was decided)", n, min))
 		}
 	}
 	// apply known findings and reviewed entries
